@@ -761,9 +761,40 @@ func (g *docgen) commandStep() *dv {
 	if g.rng.Chance(10) {
 		add("type", dStr(sx.Pick(g.rng, []string{"command", "script"})))
 	}
+	// a type error somewhere INSIDE a typed field (one env value, one matrix dimension, one element of a list, ...)
+	if g.malformed && g.rng.Chance(12) {
+		var typed []string
+		for _, k := range []string{"env", "matrix", "cache", "plugins", "signature", "commands"} {
+			if v := m.get(k); v != nil && (v.kind == 'm' && len(v.m) > 0 || v.kind == 'l' && len(v.l) > 0) {
+				typed = append(typed, k)
+			}
+		}
+		if len(typed) > 0 {
+			g.deepWrong(m.get(sx.Pick(g.rng, typed)), 3)
+		}
+	}
 	g.extras(m, 3)
 	g.shuffle(m)
 	return m
+}
+
+// deepWrong replaces one randomly chosen descendant of a non-empty container by a value of an unexpected type
+func (g *docgen) deepWrong(v *dv, depth int) {
+	var child **dv
+	switch v.kind {
+	case 'm':
+		child = &v.m[g.rng.Intn(len(v.m))].v
+	case 'l':
+		child = &v.l[g.rng.Intn(len(v.l))]
+	default:
+		return
+	}
+	c := *child
+	if depth > 1 && g.rng.Chance(60) && (c.kind == 'm' && len(c.m) > 0 || c.kind == 'l' && len(c.l) > 0) {
+		g.deepWrong(c, depth-1)
+		return
+	}
+	*child = g.wrongType()
 }
 
 func (g *docgen) shuffle(m *dv) {
